@@ -258,6 +258,33 @@ def run(ctx):
                                "value origin: %r" % (ov,))
         chk.floor("RAM element accesses in Bus::%s" % kind, found, 1)
 
+    # ---- the outside view agrees with the bus view ----------------------------------------------
+    # setting an input register from outside is what the program reads at the like-named address, and the
+    # output getters return what the program wrote to FE / FF
+    MACH = "L::machine::Machine"
+    for k, nm in enumerate(("fc", "fd", "fe", "ff")):
+        I2 = absint.Interp(p)
+        st2 = absint.State()
+        m = shapes.build(p, MACH, lambda path, ty: Opaque(".".join(str(x) for x in path)))
+        ma = I2.new_alloc(st2, "machine", m)
+        I2.run_body(p.need_body("%s::set_input_%s" % (MACH, nm)), [Ref(ma, (), True), Opaque("V")], st2, 0)
+        bus_path = (p.field_index(MACH, "raw"), p.field_index("L::machine::raw::RawMachine", "bus"))
+        got = [I2.run_body(rb, [Ref(ma, bus_path, False), 0xFC + j], st2, 0) for j in range(4)]
+        ok = all((g == Opaque("V")) == (j == k) for j, g in enumerate(got))
+        chk.ob("outside/input-%s" % nm, ok,
+               "Machine::set_input_%s is what a program reads at %#04x (and at no other input address)" % (nm, 0xFC + k),
+               p.need_body("%s::set_input_%s" % (MACH, nm)).loc(), "reads of 0xfc..0xff afterwards: %s" % got)
+    for k, nm in enumerate(("fe", "ff")):
+        I2 = absint.Interp(p)
+        st2 = absint.State()
+        ba2 = I2.new_alloc(st2, "machine", opaque_bus(p))
+        I2.run_body(wb, [Ref(ba2, (), True), 0xFE + k, Opaque("V")], st2, 0)
+        got = [I2.run_body(p.need_body("%s::output_%s" % (BUS, g_)), [Ref(ba2, (), False)], st2, 0) for g_ in ("fe", "ff")]
+        ok = all((g == Opaque("V")) == (j == k) for j, g in enumerate(got))
+        chk.ob("outside/output-%s" % nm, ok,
+               "Bus::output_%s returns what the program wrote to %#04x" % (nm, 0xFE + k), p.need_body("%s::output_%s" % (BUS, nm)).loc(),
+               "output_fe(), output_ff() after the write: %s" % got)
+
     # ---- single writers -----------------------------------------------------------
     expect_writers = {
         "input_reg": {BUS + "::input_fc", BUS + "::input_fd", BUS + "::input_fe", BUS + "::input_ff",
